@@ -117,74 +117,56 @@ theorem keysOf_split_of_locate {tag k : String} {a b : List Xml} {x : Xml}
 
 /-! ### closed form of `deleteLoop` -/
 
+theorem delKeys_nil (ids : List Key) : delKeys [] ids = ids := rfl
+
+theorem delKeys_cons (s : Key) (ss ids : List Key) :
+    delKeys (s :: ss) ids = delKeys ss (if s.isSome then ids.erase s else ids) := rfl
+
+/-- no hypothesis on the IDs: blank and repeated IDs included -/
 theorem deleteLoop_closed (tag : String) (w : Warn) (ids : List Key) :
     ∀ (cs : List Xml) (ws : List Warn),
-      (∀ x ∈ keysOf tag cs, x.isSome = true) → (keysOf tag cs).Nodup →
       ∃ cs', deleteLoop tag w none cs ids ws = ⟨cs', ws ++ delWarns w ids (keysOf tag cs), none⟩ ∧
-        keysOf tag cs' = (keysOf tag cs).filter (fun x => !ids.contains x) ∧
+        keysOf tag cs' = delKeys ids (keysOf tag cs) ∧
         cs'.filter (fun c => !(c.tag == tag)) = cs.filter (fun c => !(c.tag == tag)) := by
   induction ids with
-  | nil => intro cs ws _ _; exact ⟨cs, by simp [deleteLoop, delWarns], (List.filter_eq_self.mpr (by intros; rfl)).symm, rfl⟩
+  | nil => intro cs ws; exact ⟨cs, by simp [deleteLoop, delWarns], rfl, rfl⟩
   | cons id ids ih =>
-    intro cs ws hs hn
+    intro cs ws
     unfold deleteLoop
     rw [findChildId_ok tag cs id]
     cases hl : locate tag cs id with
     | none =>
       simp only
-      have hni : id ∉ keysOf tag cs := by
+      have hnot : (id.isSome && (keysOf tag cs).contains id) = false := by
         rcases locate_none hl with h | h
-        · intro hm; have := hs id hm; rw [h] at this; cases this
-        · exact h
-      have hnot : (id.isSome && (keysOf tag cs).contains id) = false := by simp [hni]
-      obtain ⟨cs', h1, h2, h3⟩ := ih cs (ws ++ [w]) hs hn
+        · rw [h]; rfl
+        · simp [h]
+      obtain ⟨cs', h1, h2, h3⟩ := ih cs (ws ++ [w])
       refine ⟨cs', ?_, ?_, h3⟩
       · rw [h1]; simp only [delWarns, hnot]; simp
-      · rw [h2]; apply List.filter_congr; intro x hx
-        have : x ≠ id := by intro e; rw [e] at hx; exact hni hx
-        simp [this]
+      · rw [h2, delKeys_cons]
+        congr 1
+        rcases locate_none hl with h | h
+        · rw [h]; rfl
+        · split
+          · exact (List.erase_of_not_mem h).symm
+          · rfl
     | some i =>
       simp only
       obtain ⟨k, a, x, b, hid, hcs, hal, hx1, hx2, ha⟩ := locate_split hl
       subst hid hcs hal
       obtain ⟨hk, hka⟩ := keysOf_split_of_locate (b := b) hx1 hx2 ha
       rw [eraseIdx_split]
-      rw [hk] at hs hn
-      have hkb : some k ∉ keysOf tag b := by
-        intro hm
-        have := (List.nodup_append.mp hn).2.1
-        exact (List.nodup_cons.mp this).1 hm
-      have hn' : (keysOf tag (a ++ b)).Nodup := by
-        rw [keysOf_append]
-        have := hn
-        rw [List.nodup_append] at this ⊢
-        refine ⟨this.1, (List.nodup_cons.mp this.2.1).2, ?_⟩
-        intro u hu v hv
-        exact this.2.2 u hu v (List.mem_cons_of_mem _ hv)
-      have hs' : ∀ x ∈ keysOf tag (a ++ b), x.isSome = true := by
-        intro u hu
-        rw [keysOf_append] at hu
-        apply hs
-        rcases List.mem_append.mp hu with h | h
-        · exact List.mem_append_left _ h
-        · exact List.mem_append_right _ (List.mem_cons_of_mem _ h)
-      obtain ⟨cs', h1, h2, h3⟩ := ih (a ++ b) ws hs' hn'
+      obtain ⟨cs', h1, h2, h3⟩ := ih (a ++ b) ws
       refine ⟨cs', ?_, ?_, ?_⟩
       · rw [h1, hk]
         have : ((some k : Key).isSome && (keysOf tag a ++ some k :: keysOf tag b).contains (some k)) = true := by
           simp
         simp only [delWarns, this, if_true]
         rw [erase_split _ _ _ hka, keysOf_append]
-      · rw [h2, hk, keysOf_append]
-        simp only [List.filter_append, List.filter_cons]
-        have e1 : ∀ l : List Key, some k ∉ l →
-            l.filter (fun x => !(some k :: ids).contains x) = l.filter (fun x => !ids.contains x) := by
-          intro l hl
-          apply List.filter_congr; intro u hu
-          have : u ≠ some k := by intro e; rw [e] at hu; exact hl hu
-          simp [this]
-        rw [e1 _ hka, e1 _ hkb]
-        simp
+      · rw [h2, hk, delKeys_cons, keysOf_append]
+        simp only [Option.isSome_some, if_true]
+        rw [erase_split _ _ _ hka]
       · rw [h3]
         have : (x.tag == tag) = true := by simpa using hx1
         simp [List.filter_append, this]
